@@ -84,6 +84,7 @@ func (p *wxStrictParser) value() (*cJ, error) {
 			if err != nil {
 				return nil, err
 			}
+			k = wxKeyIn(k) // back to the model's key atom
 			if seen[k] {
 				p.dups = append(p.dups, k)
 			}
@@ -355,7 +356,7 @@ func wxSerialiseTo(sb *strings.Builder, j *wJ, ws string, depth int) error {
 			if i > 0 {
 				sb.WriteString(sep)
 			}
-			sb.WriteString(wxJsonQuote(kv.K))
+			sb.WriteString(wxJsonQuote(wxKeyOut(kv.K)))
 			sb.WriteString(colon)
 			if err := wxSerialiseTo(sb, &kv.V, ws, depth+1); err != nil {
 				return err
@@ -393,4 +394,25 @@ func wxSerialiseTo(sb *strings.Builder, j *wJ, ws string, depth int) error {
 		return fmt.Errorf("cannot serialise node %q", j.J)
 	}
 	return nil
+}
+
+// Map keys of the model ("k1", "k2") are concretised to keys that need JSON escaping (quote, backslash, control
+// character, non-ASCII): member names that are user data must be escaped like any string. The bijection is applied
+// wherever a model tree meets real data (message building, serialisation, reading real output back).
+var wxKeyTable = map[string]string{"k1": "k\"1\\\u00e9\n", "k2": "k2\t/\u0001"}
+
+func wxKeyOut(k string) string {
+	if c, ok := wxKeyTable[k]; ok {
+		return c
+	}
+	return k
+}
+
+func wxKeyIn(c string) string {
+	for k, v := range wxKeyTable {
+		if v == c {
+			return k
+		}
+	}
+	return c
 }
